@@ -372,14 +372,31 @@ func (self *LocalJobManager) HandleSignal(sig os.Signal) {
 	}
 }
 
+// saturatingInt64 converts x to an int64, clamping values which are too large
+// in magnitude to represent.  The result of a plain conversion is
+// implementation-defined for such values (typically math.MinInt64, which is
+// its own negation).  The bound leaves headroom so that negating the result
+// or adding a small offset to it cannot overflow.
+func saturatingInt64(x float64) int64 {
+	const limit = 1 << 62
+	if x >= limit {
+		return limit
+	} else if x <= -limit {
+		return -limit
+	} else if x != x {
+		return 0
+	}
+	return int64(x)
+}
+
 func (self *LocalJobManager) GetSystemReqs(request *JobResources) JobResources {
 	result := *request
 	// Sanity check and cap to self.maxCores.
 	var centiCores int
 	if result.Threads < 0 {
-		centiCores = int(math.Floor(result.Threads * 100))
+		centiCores = int(saturatingInt64(math.Floor(result.Threads * 100)))
 	} else {
-		centiCores = int(math.Ceil(result.Threads * 100))
+		centiCores = int(saturatingInt64(math.Ceil(result.Threads * 100)))
 	}
 	if centiCores == 0 {
 		centiCores = self.jobSettings.ThreadsPerJob * 100
@@ -400,9 +417,9 @@ func (self *LocalJobManager) GetSystemReqs(request *JobResources) JobResources {
 	// Sanity check and cap to self.maxMemGB.
 	var memMb, vmemMb int64
 	if result.MemGB < 0 {
-		memMb = int64(math.Floor(result.MemGB * 1024))
+		memMb = saturatingInt64(math.Floor(result.MemGB * 1024))
 	} else {
-		memMb = int64(math.Ceil(result.MemGB * 1024))
+		memMb = saturatingInt64(math.Ceil(result.MemGB * 1024))
 	}
 	if memMb == 0 {
 		memMb = int64(self.jobSettings.MemGBPerJob) * 1024
@@ -423,9 +440,9 @@ func (self *LocalJobManager) GetSystemReqs(request *JobResources) JobResources {
 	}
 
 	if result.VMemGB < 0 {
-		vmemMb = int64(math.Floor(result.VMemGB * 1024))
+		vmemMb = saturatingInt64(math.Floor(result.VMemGB * 1024))
 	} else {
-		vmemMb = int64(math.Ceil(result.VMemGB * 1024))
+		vmemMb = saturatingInt64(math.Ceil(result.VMemGB * 1024))
 	}
 	if vmemMb == 0 {
 		vmemMb = memMb + int64(self.jobSettings.ExtraVmemGB)*1024
